@@ -454,3 +454,22 @@ Definition rebuild_run (steps : list rstep) : rebuild_state :=
   fold_left rebuild_step steps (mkRS false false).
 (* a power cut at this instant keeps every acknowledged record of the log *)
 Definition rebuild_safe (s : rebuild_state) : bool := negb (rs_renamed s) || rs_content_synced s.
+
+(* ------------------------------------------------------------------ *)
+(* restart: node.replayLog reads the snapshot record and the raft state from the log store and
+   hands them to the LogReader, from which raft.Launch / newRaft take term, vote, commit and
+   the entry range. The ways out of replayLog BEFORE that hand-over are GENERATED
+   ([replay_log_guards]): the store holds nothing at all for the replica (ErrNoSavedLog: a new
+   node) and a read error (no restart). *)
+Definition store_empty (img : image) : bool :=
+  (i_term img =? 0) && (i_vote img =? 0) && (i_commit img =? 0) && (i_snap_index img =? 0) && (i_snap_term img =? 0) &&
+  match i_log img with [] => true | _ => false end.
+Definition guard_fires (img : image) (g : rguard) : bool :=
+  match g with
+  | RgNoSavedLog => store_empty img     (* logdb ReadRaftState: nothing saved *)
+  | RgReadError => false                (* I/O errors are not part of this model *)
+  | RgUnknownReturn => true             (* a return the extractor does not know: assume the worst *)
+  end.
+(* what the launched raft peer starts from *)
+Definition restart_image (img : image) : image :=
+  if existsb (guard_fires img) replay_log_guards then image0 else img.
